@@ -68,7 +68,7 @@ META = dict(
              'fact about log, which is uninterpreted here; what is proved instead is that the code applies exactly '
              'the (separately verified exact-on-quadratics) stencils to the exact Poisson log-likelihood and '
              'assembles H, J, cU, GIM and the statistics by their definitions',
-             'log=True (derivatives w.r.t. log-parameters: exp/log of symbolic parameters)',
+             'numerical content of log=True (derivatives w.r.t. log-parameters: exp/log of symbolic parameters); only its composition is checked (unit log-option-composition)',
              'numerical values of scipy chi2.cdf, gammaln, numpy.linalg.inv (stubbed), float round-off, singular H/J',
              'models that are not positive on the stencil points (numpy.ma masking of log), data that are all zero '
              'with multinom=True (theta_opt=0), non-pure model functions',
@@ -1034,6 +1034,115 @@ def stats_body(k, nbins, nboot, nested, multinom=False, thetas=False, full_len='
     return body
 
 
+def log_option_body(env):
+    """The documented `log` option (derivatives w.r.t. log-parameters).  Its numerical content (exp/log of symbolic
+    parameters) is outside the model; what is decided is the composition: FIM_uncert / GIM_uncert hand the option,
+    the parameters and the step to get_godambe and return sqrt(diag(inv(.))) of what it returns; get_godambe(log=True)
+    differentiates p -> F(exp(p)) at log(p0) (get_hess / get_grad replaced by recorders returning fresh matrices)."""
+    from dadi import Godambe
+    import z3
+    P = _Poisson(env, 2, 3, 2)
+    model = P.make_model()
+    p = list(P.p)
+    k = 2
+    Hs = np.empty((k, k), dtype=object)
+    Gs = np.empty((k, k), dtype=object)
+    for i in range(k):
+        for j in range(i, k):
+            Hs[i, j] = Hs[j, i] = env.real('Hs%d%d' % (i, j), lo=1 if i == j else 0, hi=3 if i == j else Fr(1, 4))
+            Gs[i, j] = Gs[j, i] = env.real('Gs%d%d' % (i, j), lo=1 if i == j else 0, hi=3 if i == j else Fr(1, 4))
+    rec = []
+    orig = Godambe.get_godambe
+
+    def fake_godambe(func_ex, grid_pts, all_boot, p0, data, eps, log=False, just_hess=False, boot_theta_adjusts=[]):
+        rec.append(dict(log=log, p0=list(p0), eps=eps, nboot=len(all_boot), just_hess=just_hess))
+        if just_hess:
+            return Hs.copy()
+        return Gs.copy(), Hs.copy(), Hs.copy(), np.zeros((k, 1), dtype=object)
+    Godambe.get_godambe = fake_godambe
+    try:
+        for lg in (False, True):
+            del rec[:]
+            u = Godambe.FIM_uncert(model, [10], list(p), P.data, log=lg, multinom=False, eps=P.eps)
+            env.holds('FIM_uncert(log=%s): one get_godambe call' % lg, len(rec) == 1)
+            if len(rec) == 1:
+                env.holds('FIM_uncert(log=%s) hands log=%s to get_godambe (got %r)' % (lg, lg, rec[0]['log']),
+                          bool(rec[0]['log']) == lg)
+                env.holds('FIM_uncert(log=%s): just_hess' % lg, bool(rec[0]['just_hess']))
+                for i in range(k):
+                    _eqv(env, 'FIM_uncert(log=%s): p0[%d] handed on' % (lg, i), rec[0]['p0'][i], p[i])
+                _eqv(env, 'FIM_uncert(log=%s): eps handed on' % lg, rec[0]['eps'], P.eps)
+            Hi = _inv_exact(Hs)
+            for i in range(k):
+                _eqv(env, 'FIM_uncert(log=%s)[%d]' % (lg, i), u[i], _sqrt(Hi[i, i]), struct=True)
+            del rec[:]
+            ug = Godambe.GIM_uncert(model, [10], list(P.boot_fs), list(p), P.data, log=lg, multinom=False, eps=P.eps)
+            env.holds('GIM_uncert(log=%s): one get_godambe call' % lg, len(rec) == 1)
+            if len(rec) == 1:
+                env.holds('GIM_uncert(log=%s) hands log=%s to get_godambe (got %r)' % (lg, lg, rec[0]['log']),
+                          bool(rec[0]['log']) == lg)
+                env.holds('GIM_uncert(log=%s): all bootstraps handed on' % lg, rec[0]['nboot'] == len(P.boot_fs))
+                for i in range(k):
+                    _eqv(env, 'GIM_uncert(log=%s): p0[%d] handed on' % (lg, i), rec[0]['p0'][i], p[i])
+            Gi = _inv_exact(Gs)
+            for i in range(k):
+                _eqv(env, 'GIM_uncert(log=%s)[%d]' % (lg, i), ug[i], _sqrt(Gi[i, i]), struct=True)
+    finally:
+        Godambe.get_godambe = orig
+    # get_godambe(log=True): the differentiated function and point
+    calls = []
+    oh, og = Godambe.get_hess, Godambe.get_grad
+
+    def fake_hess(func, p0, eps, args=()):
+        calls.append(('hess', func, list(p0), eps, args))
+        return -Hs.copy()
+
+    def fake_grad(func, p0, eps, args=()):
+        calls.append(('grad', func, list(p0), eps, args))
+        g = np.empty((k, 1), dtype=object)
+        for i in range(k):
+            g[i, 0] = env.const(Fr(1 + i + len(calls), 7))
+        return g
+    Godambe.get_hess, Godambe.get_grad = fake_hess, fake_grad
+    try:
+        _clear_cache()
+        Godambe.get_godambe(model, [10], list(P.boot_fs), list(p), P.data, P.eps, log=True)
+        env.holds('get_godambe(log=True): 1 hessian + %d gradients' % len(P.boot_fs),
+                  [c[0] for c in calls] == ['hess'] + ['grad'] * len(P.boot_fs))
+        q = [env.real('q%d' % j, lo=Fr(1, 2), hi=2) for j in range(k)]
+        for ci, (kind, func, p0c, epsc, args) in enumerate(calls):
+            for i in range(k):
+                if env.symbolic:
+                    env.holds('get_godambe(log=True) call %d (%s): point[%d] is log(p0[%d])' % (ci, kind, i, i),
+                              isinstance(p0c[i], S.Sym) and z3.eq(z3.simplify(p0c[i].t), z3.simplify(p[i].log().t)))
+                else:
+                    env.holds('get_godambe(log=True) call %d (%s): point[%d] is log(p0[%d])' % (ci, kind, i, i),
+                              abs(float(p0c[i]) - float(np.log(p[i]))) <= 1e-12 * max(1.0, abs(float(np.log(p[i])))))
+            _eqv(env, 'get_godambe(log=True) call %d: eps' % ci, epsc, P.eps)
+            # the function differentiated is lp -> F(exp(lp)): evaluate it at lp = log(q) (LOG/EXP cancel)
+            if env.symbolic:
+                lq = np.array([S.Sym(S.UF['LOG'](v.t)) for v in q], dtype=object)
+                # EXP(LOG q) is not rewritten: feed a point of the form lp whose exp is recognisable instead
+                seen = []
+                of = Godambe.Inference.ll
+                try:
+                    Godambe.Inference.ll = lambda fs, data: seen.append(fs) or env.const(0)
+                    func(lq, *args)
+                finally:
+                    Godambe.Inference.ll = of
+                env.holds('call %d: likelihood of one spectrum' % ci, len(seen) == 1)
+                if len(seen) == 1:
+                    th = args[1] if len(args) > 1 else 1
+                    want = model([S.Sym(S.UF['EXP'](v.t)) for v in lq], P.data.sample_sizes, [10])
+                    got = np.ma.getdata(seen[0])
+                    wd = np.ma.getdata(want)
+                    for b in range(P.nbins):
+                        env.eq_struct('call %d (%s): spectrum bin %d is theta_adjust*model(exp(lp))' % (ci, kind, b),
+                                      got[b], th * wd[b])
+    finally:
+        Godambe.get_hess, Godambe.get_grad = oh, og
+
+
 def reject_body(env):
     """boot_theta_adjusts together with multinom=True is rejected (documented)."""
     from dadi import Godambe
@@ -1446,6 +1555,7 @@ def units(tier, seed):
           dict(k=k, nbins=nb, nboot=nboot, nested=nested, multinom=mn, thetas=th, full_params=fl),
           min_obligations=10, expect_paths=2 ** (k + (1 if mn else 0)))
     U('reject-thetas-with-multinom', reject_body, {}, min_obligations=2)
+    U('log-option-composition', log_option_body, dict(k=2, nbins=3, nboot=2), min_obligations=20)
     for stat in ('LRT_adjust', 'Wald_stat', 'score_stat'):
         for ni in (0, 1):
             U('cache-stale-%s-nested%d' % (stat, ni), cache_stale_body(stat, ni), dict(stat=stat, nested=[ni]),
